@@ -67,6 +67,11 @@ func resolveTypeText(pkg *types.Package, t string) types.Type {
 		return types.NewPointer(resolveTypeText(pkg, t[1:]))
 	case strings.HasPrefix(t, "[]"):
 		return types.NewSlice(resolveTypeText(pkg, t[2:]))
+	case strings.HasPrefix(t, "map["):
+		// map[K]V (K without brackets)
+		if i := strings.Index(t, "]"); i > 0 {
+			return types.NewMap(resolveTypeText(pkg, t[4:i]), resolveTypeText(pkg, t[i+1:]))
+		}
 	}
 	switch t {
 	case "int":
@@ -79,14 +84,28 @@ func resolveTypeText(pkg *types.Package, t string) types.Type {
 		return types.Typ[types.Bool]
 	case "float64":
 		return types.Typ[types.Float64]
-	case "byte":
-		return types.Universe.Lookup("byte").Type()
+	case "byte", "rune":
+		return types.Universe.Lookup(t).Type()
+	case "uint8":
+		return types.Typ[types.Uint8]
+	case "int32":
+		return types.Typ[types.Int32]
+	case "uint":
+		return types.Typ[types.Uint]
+	case "uint32":
+		return types.Typ[types.Uint32]
+	case "uint64":
+		return types.Typ[types.Uint64]
 	case "Ref":
 		return types.Typ[types.UnsafePointer]
 	case "any":
 		return types.NewInterfaceType(nil, nil)
 	case "error":
 		return types.Universe.Lookup("error").Type()
+	}
+	if o, ok := types.Universe.Lookup(t).(*types.TypeName); ok {
+		// the remaining predeclared types (byte, uint8, int32, ...)
+		return o.Type()
 	}
 	if i := strings.Index(t, "."); i >= 0 {
 		pn, tn := t[:i], t[i+1:]
@@ -289,6 +308,18 @@ func (e *SpecEnv) Eval(x SExpr) SV {
 		return e.index(v, i)
 	case SSliceE:
 		v := e.Eval(x.X)
+		if isString(v.Typ) {
+			// s[lo:hi] of a string: the executor's Str_sub
+			lo := "0"
+			if x.Lo != nil {
+				lo = e.Eval(x.Lo).Term
+			}
+			hi := "(Str_len " + v.Term + ")"
+			if x.Hi != nil {
+				hi = e.Eval(x.Hi).Term
+			}
+			return SV{Term: fmt.Sprintf("(Str_sub %s %s %s)", v.Term, lo, hi), Typ: v.Typ}
+		}
 		if _, ok := v.Typ.Underlying().(*types.Slice); !ok {
 			e.fail("slice expr on non-slice")
 		}
@@ -331,12 +362,12 @@ func (e *SpecEnv) Eval(x SExpr) SV {
 				if c, ok := p.(SCall); ok && c.Fn == "$multi" {
 					var ts []string
 					for _, a := range c.Args {
-						ts = append(ts, ne.Eval(a).Term)
+						ts = append(ts, patTerm(ne.Eval(a)))
 					}
 					ps = append(ps, "("+strings.Join(ts, " ")+")")
 					continue
 				}
-				ps = append(ps, "("+ne.Eval(p).Term+")")
+				ps = append(ps, "("+patTerm(ne.Eval(p))+")")
 			}
 			bt = fmt.Sprintf("(! %s :pattern %s)", bt, strings.Join(ps, " :pattern "))
 		}
@@ -344,6 +375,15 @@ func (e *SpecEnv) Eval(x SExpr) SV {
 	}
 	e.fail("cannot evaluate %s", x)
 	return SV{}
+}
+
+// patTerm: the term of a trigger expression; a struct location (s[i] of a struct-element slice, *p) is
+// represented by its reference (an empty :pattern () is rejected by cvc5 and ignored by z3).
+func patTerm(v SV) string {
+	if v.Term == "" && v.Loc != nil {
+		return v.Loc.Base
+	}
+	return v.Term
 }
 
 func (e *SpecEnv) constVal(c *types.Const) SV {
@@ -764,6 +804,19 @@ func (e *SpecEnv) evalCall(x SCall) SV {
 		// the i-th value accepted by xml Encode (ghost sequence)
 		_, seq := encHeaps(e.G)
 		return SV{Term: fmt.Sprintf("(select %s %s)", e.Cur.Heap(seq), arg(0).Term), Typ: types.NewInterfaceType(nil, nil)}
+	case "marshalCount":
+		// number of successful xml.Marshal/MarshalIndent calls so far (ghost)
+		n, _, _ := marshalHeaps(e.G)
+		return SV{Term: e.Cur.Heap(n), Typ: intT}
+	case "marshalAt":
+		// the value handed to the i-th successful xml.Marshal/MarshalIndent call (ghost sequence)
+		_, seq, _ := marshalHeaps(e.G)
+		return SV{Term: fmt.Sprintf("(select %s %s)", e.Cur.Heap(seq), arg(0).Term), Typ: types.NewInterfaceType(nil, nil)}
+	case "marshalOut":
+		// the bytes returned by the i-th successful xml.Marshal/MarshalIndent call (ghost sequence)
+		_, _, out := marshalHeaps(e.G)
+		// []byte as the source spells it (the universe's byte, whose cell heap is M_byte; types.Typ[types.Byte] is uint8)
+		return SV{Term: fmt.Sprintf("(select %s %s)", e.Cur.Heap(out), arg(0).Term), Typ: types.NewSlice(types.Universe.Lookup("byte").Type())}
 	case "seen":
 		// seen(k): key k has been produced by the enclosing range-over-map loop
 		sv, ok := e.Vars["#seen"]
@@ -786,12 +839,20 @@ func (e *SpecEnv) evalCall(x SCall) SV {
 			e.fail("string() of non-string %v", v.Typ)
 		}
 		return SV{Term: v.Term, Typ: types.Typ[types.String]}
+	case "sprintf":
+		return e.evalSprintf(x)
 	case "itoa":
 		return SV{Term: "(itoa " + arg(0).Term + ")", Typ: types.Typ[types.String]}
 	case "atoi":
 		return SV{Term: "(atoi " + arg(0).Term + ")", Typ: intT}
 	case "atoiOK":
 		return SV{Term: "(atoi_ok " + arg(0).Term + ")", Typ: boolT}
+	case "zfLen":
+		// zfLen(f): number of bytes of the zip entry f (*zip.File)
+		return SV{Term: "(" + e.G.UF("zf_len", []string{"Ref"}, SInt) + " " + arg(0).Term + ")", Typ: intT}
+	case "zfByte":
+		bt := types.Universe.Lookup("byte").Type()
+		return SV{Term: "(" + e.G.UF("zf_byte", []string{"Ref", SInt}, e.G.TE.SortOf(bt)) + " " + arg(0).Term + " " + arg(1).Term + ")", Typ: bt}
 	case "parseFloat64":
 		return SV{Term: "(pfloat " + arg(0).Term + ")", Typ: types.Typ[types.Float64]}
 	case "parseFloat64OK":
